@@ -15,6 +15,7 @@ import (
 	"encoding/json"
 	"fmt"
 	"sort"
+	"sync"
 	"time"
 
 	c4eapp "github.com/chain4energy/c4e-chain/app"
@@ -54,11 +55,27 @@ func Key(label string) *secp256k1.PrivKey {
 	return &secp256k1.PrivKey{Key: h[:]}
 }
 
+var addrCache, addrSCache sync.Map // label -> sdk.AccAddress / bech32 string (deriving a public key costs ~50 us)
+
 // Addr is the account address of a label.
-func Addr(label string) sdk.AccAddress { return sdk.AccAddress(Key(label).PubKey().Address()) }
+func Addr(label string) sdk.AccAddress {
+	if a, ok := addrCache.Load(label); ok {
+		return append(sdk.AccAddress(nil), a.(sdk.AccAddress)...)
+	}
+	a := sdk.AccAddress(Key(label).PubKey().Address())
+	addrCache.Store(label, a)
+	return append(sdk.AccAddress(nil), a...)
+}
 
 // AddrS is the bech32 form.
-func AddrS(label string) string { return Addr(label).String() }
+func AddrS(label string) string {
+	if s, ok := addrSCache.Load(label); ok {
+		return s.(string)
+	}
+	s := Addr(label).String()
+	addrSCache.Store(label, s)
+	return s
+}
 
 func ModAddr(name string) sdk.AccAddress { return authtypes.NewModuleAddress(name) }
 
